@@ -187,20 +187,34 @@ static std::string cmd_disx(const std::vector<std::string> &args)
 //     (tail[0..off), p >> 8, p & 0xff, tail[off..]) are placed at <addr> (off = 0 when absent: p leads; off = 2
 //     puts p into the upper half-word of a little-endian 32-bit instruction) and disassembled; then every byte
 //     after the reported length is complemented and the instruction is disassembled again (locality).  Answer:
-//       n=<count> max=<largest length> bad=<p:kind:len;...>   kinds: nonul, short (len < unit), nonlocal
-//     plus lens=<histogram len:count,...>.  `unit` = bytes_per_address of the CPU (1 if 0).
-static std::string cmd_disxb(const std::vector<std::string> &args)
+//       n=<count> max=<largest length> nbad=<n> unexplored=<n> bad=<p:kind:len;...> lens=<histogram len:count,...>
+//     kinds: nonul, short (len < unit), nonlocal, crash (sanitizer report / signal), hang (20 s).
+//     `unit` = bytes_per_address of the CPU (1 if 0).
+//     The loop runs in a forked child that keeps its results in shared memory: when the child dies on a pattern
+//     the pattern is recorded as crash/hang and a new child continues behind it, so a crashing decoder costs one
+//     fork per crash and not a restart of the harness; after DISXB_CRASH_CAP crashes the rest of [from, to) is
+//     reported as unexplored.
+#include <sys/wait.h>
+#define DISXB_CRASH_CAP 8
+struct DisxbShared
 {
-  if (args.size() != 5 && args.size() != 6) { return "bad-op"; }
-  CpuList *cpu = isa_find_cpu(args[0]);
-  if (cpu == NULL) { return "bad-op"; }
-  disasm_one_t f = isa_all_find(cpu);
-  if (f == NULL) { return "bad-op"; }
-  uint32_t addr = (uint32_t)strtoul(args[1].c_str(), NULL, 16);
-  std::string tail = unhex(args[2]);
-  int from = atoi(args[3].c_str()), to = atoi(args[4].c_str());
-  size_t off = args.size() == 6 ? (size_t)atoi(args[5].c_str()) : 0;
-  if (off > tail.size()) { return "bad-op"; }
+  int cur, count, maxlen, nbad, badlen, hn;
+  int hist_len[256], hist_cnt[256];
+  char bad[1 << 17];
+};
+
+static void disxb_bad(DisxbShared *sh, int p, const char *kind, int len)
+{
+  sh->nbad++;
+  if (sh->badlen + 64 < (int)sizeof(sh->bad))
+  {
+    sh->badlen += snprintf(sh->bad + sh->badlen, 64, "%s%04x:%s:%d", sh->badlen == 0 ? "" : ";", p, kind, len);
+  }
+}
+
+static void disxb_child(DisxbShared *sh, CpuList *cpu, disasm_one_t f, uint32_t addr, const std::string &tail,
+                        size_t off, int from, int to)
+{
   int unit = cpu->bytes_per_address > 0 ? cpu->bytes_per_address : 1;
   const int size = 128;
   const int total = 2 + (int)tail.size();
@@ -208,12 +222,10 @@ static std::string cmd_disxb(const std::vector<std::string> &args)
   char *text2 = (char *)malloc(size);
   Memory *memory = new Memory();
   memory->endian = cpu->default_endian;
-  std::map<int,int> hist;
-  std::string bad;
-  int nbad = 0, maxlen = 0, count = 0;
   signal(SIGALRM, isa_alarm);
   for (int p = from; p < to; p++)
   {
+    sh->cur = p;
     std::string bytes = tail.substr(0, off);
     bytes += (char)(p >> 8);
     bytes += (char)(p & 0xff);
@@ -224,9 +236,6 @@ static std::string cmd_disxb(const std::vector<std::string> &args)
     alarm(20);
     int len1 = f(memory, addr, text1, size, cpu->flags, &c0, &c1);
     alarm(0);
-    count++;
-    hist[len1]++;
-    if (len1 > maxlen) { maxlen = len1; }
     const char *kind = NULL;
     if (memchr(text1, 0, size) == NULL) { kind = "nonul"; }
     else if (len1 < unit) { kind = "short"; }
@@ -239,32 +248,73 @@ static std::string cmd_disxb(const std::vector<std::string> &args)
       alarm(0);
       if (len2 != len1 || memchr(text2, 0, size) == NULL || strcmp(text1, text2) != 0) { kind = "nonlocal"; }
     }
-    if (kind != NULL)
+    // results of this pattern (only now: a pattern that kills the child is recorded by the parent)
+    sh->count++;
+    if (len1 > sh->maxlen) { sh->maxlen = len1; }
+    int h;
+    for (h = 0; h < sh->hn && sh->hist_len[h] != len1; h++) { }
+    if (h == sh->hn && sh->hn < 256) { sh->hist_len[h] = len1; sh->hist_cnt[h] = 0; sh->hn++; }
+    if (h < 256) { sh->hist_cnt[h]++; }
+    if (kind != NULL) { disxb_bad(sh, p, kind, len1); }
+  }
+  sh->cur = to;
+}
+
+static std::string cmd_disxb(const std::vector<std::string> &args)
+{
+  if (args.size() != 5 && args.size() != 6) { return "bad-op"; }
+  CpuList *cpu = isa_find_cpu(args[0]);
+  if (cpu == NULL) { return "bad-op"; }
+  disasm_one_t f = isa_all_find(cpu);
+  if (f == NULL) { return "bad-op"; }
+  uint32_t addr = (uint32_t)strtoul(args[1].c_str(), NULL, 16);
+  std::string tail = unhex(args[2]);
+  int from = atoi(args[3].c_str()), to = atoi(args[4].c_str());
+  size_t off = args.size() == 6 ? (size_t)atoi(args[5].c_str()) : 0;
+  if (off > tail.size()) { return "bad-op"; }
+  DisxbShared *sh = (DisxbShared *)mmap(NULL, sizeof(DisxbShared), PROT_READ | PROT_WRITE, MAP_SHARED | MAP_ANONYMOUS, -1, 0);
+  if (sh == MAP_FAILED) { return "bad-op"; }
+  memset(sh, 0, sizeof(DisxbShared));
+  sh->cur = from;
+  int crashes = 0, unexplored = 0;
+  int next = from;
+  while (next < to)
+  {
+    fflush(stdout);
+    fflush(ans);
+    pid_t pid = fork();
+    if (pid < 0) { munmap(sh, sizeof(DisxbShared)); return "bad-op"; }
+    if (pid == 0)
     {
-      nbad++;
-      if (nbad <= 4096)
-      {
-        char buf[64];
-        snprintf(buf, sizeof(buf), "%s%04x:%s:%d", bad.empty() ? "" : ";", p, kind, len1);
-        bad += buf;
-      }
+      int devnull = open("/dev/null", O_WRONLY);
+      if (devnull >= 0) { dup2(devnull, 2); }
+      disxb_child(sh, cpu, f, addr, tail, off, next, to);
+      _exit(0);
     }
+    int status = 0;
+    waitpid(pid, &status, 0);
+    if (WIFEXITED(status) && WEXITSTATUS(status) == 0 && sh->cur >= to) { break; }
+    // the child died while working on pattern sh->cur
+    int p = sh->cur;
+    if (p < next || p >= to) { p = next; }
+    disxb_bad(sh, p, WIFEXITED(status) && WEXITSTATUS(status) == 97 ? "hang" : "crash", 0);
+    sh->count++;
+    crashes++;
+    next = p + 1;
+    if (crashes >= DISXB_CRASH_CAP) { unexplored = to - next; break; }
   }
   capture_take();
-  free(text1);
-  free(text2);
-  delete memory;
-  char head[96];
-  snprintf(head, sizeof(head), "n=%d max=%d nbad=%d bad=", count, maxlen, nbad);
-  std::string out = head + (bad.empty() ? std::string("-") : bad) + " lens=";
-  bool first = true;
-  for (std::map<int,int>::iterator it = hist.begin(); it != hist.end(); ++it)
+  char head[128];
+  snprintf(head, sizeof(head), "n=%d max=%d nbad=%d unexplored=%d bad=", sh->count, sh->maxlen, sh->nbad, unexplored);
+  std::string out = head + (sh->badlen == 0 ? std::string("-") : std::string(sh->bad, sh->badlen)) + " lens=";
+  for (int h = 0; h < sh->hn; h++)
   {
     char buf[48];
-    snprintf(buf, sizeof(buf), "%s%d:%d", first ? "" : ",", it->first, it->second);
+    snprintf(buf, sizeof(buf), "%s%d:%d", h == 0 ? "" : ",", sh->hist_len[h], sh->hist_cnt[h]);
     out += buf;
-    first = false;
   }
+  if (sh->hn == 0) { out += "-"; }
+  munmap(sh, sizeof(DisxbShared));
   return out;
 }
 
